@@ -20,9 +20,21 @@ def setup():
 
 
 def exact_solve(A, b, *, x0=None, name=None, **kw):
-    """contract of conjugate gradient: returns (x, info) with A x = b; written in jnp so that it is traced with the rest"""
+    """contract of conjugate gradient: returns (x, info) with A x = b; written in jnp so that it is traced with the rest.
+    A complex system is solved as the REAL-linear system it is (the data-space operator R Re(R^H .) + N of a real signal is
+    real-linear, not complex-linear): unknowns Re x, Im x."""
     n = b.shape[0]
-    cols = [A(jnp.zeros(n).at[i].set(1.)) for i in range(n)]
+    if jnp.iscomplexobj(b):
+        if n != 1:
+            raise NotImplementedError
+        c1 = A(jnp.ones(1, dtype=b.dtype))[0]            # A(1)
+        ci = A(1j * jnp.ones(1, dtype=b.dtype))[0]       # A(i)
+        m00, m10, m01, m11 = c1.real, c1.imag, ci.real, ci.imag
+        det = m00 * m11 - m01 * m10
+        xr = (m11 * b[0].real - m01 * b[0].imag) / det
+        xi = (m00 * b[0].imag - m10 * b[0].real) / det
+        return jnp.array([xr + 1j * xi]), 0
+    cols = [A(jnp.zeros(n, dtype=b.dtype).at[i].set(1.)) for i in range(n)]
     M = jnp.stack(cols, axis=1)
     if n == 1:
         return b / M[0, 0], 0
@@ -87,9 +99,11 @@ def _M(R, s):
     return M
 
 
-def h_mean(B, ndata, solver, signal_space, linearize=False):
+def h_mean(B, ndata, solver, signal_space, linearize=False, cplx=False):
     J = jft()
     R, d, s = _model(B, ndata)
+    if cplx:        # complex response and data (Fourier / visibility type measurements of a real signal)
+        R, d = B.complexes("R", (ndata, 2)), B.complexes("d", (ndata,))
     pos = B.reals("p", (2,)) if linearize else None
 
     def run(R, d, s, pos=None):
@@ -101,9 +115,20 @@ def h_mean(B, ndata, solver, signal_space, linearize=False):
         return smp.pos
     args = (R, d, s, pos) if linearize else (R, d, s)
     m = np.asarray(jcall(B, run, *args, while_bound=4), dtype=object).reshape(-1)
-    M = _M(R, s)
-    j = np.array([sum(R[k, i] * s[k] * s[k] * d[k] for k in range(ndata)) for i in range(2)], dtype=object)
-    B.eq(f"(1 + R^T N^-1 R) m == R^T N^-1 d  ({'signal' if signal_space else 'data'} space, solver={solver}"
+    if cplx:
+        # exact posterior mean of a real signal: (1 + Re(R^H N^-1 R)) m = Re(R^H N^-1 d)
+        cj = (lambda v: v.conjugate())
+        M = np.empty((2, 2), dtype=object)
+        for i in range(2):
+            for k2 in range(2):
+                t = sum(cj(R[k, i]) * (s[k] * s[k]) * R[k, k2] for k in range(ndata))
+                M[i, k2] = (1 if i == k2 else 0) + (t.real if hasattr(t, "real") else t)
+        j = np.array([(lambda t: t.real if hasattr(t, "real") else t)(sum(cj(R[k, i]) * (s[k] * s[k]) * d[k] for k in range(ndata))) for i in range(2)], dtype=object)
+        m = np.array([(v.real if hasattr(v, "real") else v) for v in m], dtype=object)
+    else:
+        M = _M(R, s)
+        j = np.array([sum(R[k, i] * s[k] * s[k] * d[k] for k in range(ndata)) for i in range(2)], dtype=object)
+    B.eq(f"(1 + R^T N^-1 R) m == R^T N^-1 d  ({'signal' if signal_space else 'data'} space, solver={solver}{', complex response' if cplx else ''}"
          f"{', linearised at an arbitrary position' if linearize else ''})", list(M @ m), list(j))
 
 
@@ -218,6 +243,8 @@ def scenarios(tier, seed):
              ("mean", {"ndata": 1, "solver": "exact", "signal_space": False}),
              ("mean", {"ndata": 2, "solver": "exact", "signal_space": True, "linearize": True}),
              ("mean", {"ndata": 1, "solver": "exact", "signal_space": False, "linearize": True}),
+             ("mean", {"ndata": 1, "solver": "exact", "signal_space": False, "cplx": True}),
+             ("mean", {"ndata": 1, "solver": "exact", "signal_space": True, "cplx": True}),
              ("samples", {"ndata": 2, "nsamples": 1}),
              ("cov", {"ndata": 1}),
              ("curvature", {"ndata": 2})]
